@@ -356,6 +356,27 @@ pub fn cases(target: &str, thorough: bool, seed: u64) -> Vec<Case> {
                 prefixes(s, &format!("json/seed{}", i), &mut raw);
                 text_mutants(s, &format!("json/seed{}", i), false, &mut raw);
             }
+            // \u escapes: every ordered pair of boundary code units (BMP edges, both surrogate ranges), single
+            // units, truncated and non-hex escapes; as array element, object value and object key
+            const UNITS: [&str; 17] = ["0000", "001f", "0020", "007f", "00e9", "d7ff", "d800", "d801", "dbff", "DBFF", "dc00", "dc01", "dfff", "DFFF", "e000", "fffe", "ffff"];
+            let mut esc: Vec<String> = Vec::new();
+            for a in UNITS {
+                esc.push(format!("\\u{}", a));
+                esc.push(format!("\\u{}x", a));
+                esc.push(format!("\\u{}\\n", a));
+                for b in UNITS {
+                    esc.push(format!("\\u{}\\u{}", a, b));
+                }
+                for cut in ["\\u", "\\ud", "\\udc", "\\udc0", "\\uZZZZ", "\\u+123", "\\u 123", "\\u12G4", "\\U0041"] {
+                    esc.push(format!("\\u{}{}", a, cut));
+                }
+            }
+            for e in &esc {
+                raw.push(("json/u-escape/elem".into(), format!("[\"{}\"]", e).into_bytes()));
+                raw.push(("json/u-escape/value".into(), format!("{{\"k\":\"a{}b\"}}", e).into_bytes()));
+                raw.push(("json/u-escape/key".into(), format!("{{\"{}\":1}}", e).into_bytes()));
+                raw.push(("json/u-escape/unterminated".into(), format!("\"{}", e).into_bytes()));
+            }
             for d in [10usize, 100, 255, 256, 257, 1000, 10_000, 200_000] {
                 raw.push((format!("json/nest[{}", d), nested(b"[", b"1", b"]", d, b"", b"")));
                 raw.push((format!("json/nest[{}-open", d), nested(b"[", b"", b"", d, b"", b"")));
